@@ -68,156 +68,8 @@ def first_per_key(v, by_tid, n=2):
     return w, total
 
 
-def run(rep, tier):
-    quick = tier == "quick"
-    wd = work_dir("X01", "run_%d" % os.getpid(), clean=True)
-    lib = wd / "lib"
-    rep.rule = ("TLC: all histories of <= %d operations (copy / unchecked_extend / checked_extend / add_theorem / get_theorem(svar=True)) on <= 2 Theory "
-                "objects for four small alphabets (cache, signature, overloading, attributes+proofs), all histories of <= %d operations on the globals "
-                "(fresh_context enter / exit normal / exit by exception, set_context, load_theory, load_theory_cache, extension of the global theory, "
-                "mutation of the context); every behaviour is replayed into the real code (its last step observed; earlier steps are the last steps of "
-                "shorter behaviours). Real code: seeded random histories of %d operations over a wider alphabet, every step observed. Non-trivial = "
-                "every step on a Theory object and every exit / set_context / load_theory step; distinct by the full observed state."
-                % (3 if quick else 4, 3 if quick else 4, 20 if quick else 30))
-    rep.assumptions = ["observation through the public getters only (has_*, get_type_sig, get_term_sig, get_theorem, get_attributes, is_overload_const, "
-                       "get_data(..) keys, theory.has_macro); get_theorem(name, svar=True) is asked on a copy.copy of the object",
-                       "library: a scratch directory with two generated theories and a copy of logic_base (path helpers of logic/basic.py redirected)",
-                       "re-adding a TYPE with the SAME arity is accepted (the loader does it for every datatype); same-arity re-adds are not judged",
-                       "the theory on leaving a fresh_context block is judged only when the body did not itself install a theory "
-                       "(load_theory / set_context with a name); otherwise a divergence is recorded"]
-    timing = rep.notes.setdefault("timing_s", {})
-    pool = ThreadPoolExecutor(max_workers=2)
-    try:
-        # ---------------- S: model checking (emits the behaviours)
-        f_thy = pool.submit(model_check, "X01_Theory", "X01_Theory_small.cfg" if quick else "X01_Theory_deep.cfg", wd=wd / "mc_thy", workers=2, timeout=3000)
-        f_ctx = pool.submit(model_check, "X01_Context", "X01_Context_small.cfg" if quick else "X01_Context_deep.cfg", wd=wd / "mc_ctx", workers=2, timeout=3000)
-        f_canon = pool.submit(run_driver, "x01", ["ctx-canon", lib, wd / "canon.json"], timeout=600)
-        r_thy, r_ctx = f_thy.result(), f_ctx.result()
-        f_canon.result()
-        rep.add_mc("X01_Theory(fixed mechanism; alphabets cache, sig, over, attr)", r_thy, "MaxOps=%d MaxObjs=2, every behaviour emitted" % (3 if quick else 4))
-        rep.add_mc("X01_Context(as coded = reference)", r_ctx, "MaxOps=%d" % (3 if quick else 4))
-        for nm, r in (("X01_Theory", r_thy), ("X01_Context", r_ctx)):
-            if r.violated:
-                rep.design_violation(nm, r)
-                return
-        timing["tlc_S"] = round(max(r_thy.wall, r_ctx.wall), 1)
-        logs_thy, logs_ctx = [r_thy.out], [r_ctx.out]
-        more = [("X01_Theory", "X01_Theory_inv.cfg", None, "all operations, 3 objects, invariants only")]
-        if not quick:
-            more += [("X01_Context", "X01_Context_inv.cfg", None, "MaxOps=5, invariants only"),
-                     ("X01_Theory", "X01_Theory_sim.cfg", "num=400", "simulated behaviours of 8 operations, all operations, 3 objects"),
-                     ("X01_Context", "X01_Context_sim.cfg", "num=400", "simulated behaviours of 8 operations, depth 3, three theories")]
-
-        def one(job):
-            mod, cfg, sim, what = job
-            if sim:
-                r = tlc(mod, cfg, wd=wd / ("mc_" + cfg[:-4]), simulate=sim, depth=12, seed_=seed() + 1, timeout=3000)
-                require(r.rc == 0 or r.violated, "%s simulation failed: %s" % (mod, r.error))
-                return r
-            return model_check(mod, cfg, wd=wd / ("mc_" + cfg[:-4]), workers=2, timeout=6000)
-        for job, r in zip(more, pool.map(one, more)):
-            rep.add_mc("%s(%s)" % (job[0], job[3]), r, job[1])
-            if r.violated:
-                rep.design_violation(job[0], r)
-                return
-            if job[2]:
-                (logs_thy if job[0] == "X01_Theory" else logs_ctx).append(r.out)
-        rep.exhaustive = True
-        (wd / "thy_vectors.log").write_text("\n".join(logs_thy))
-        (wd / "ctx_vectors.log").write_text("\n".join(logs_ctx))
-        # ---------------- drivers: spec -> code (vectors) and code -> spec (seeded random histories)
-        nh, ln = (60, 20) if quick else (600, 30)
-        nhc, lnc = (40, 20) if quick else (400, 30)
-        jobs = [("thy-vectors", [wd / "thy_vectors.log", wd / "thy_v.ndjson"]),
-                ("ctx-vectors", [wd / "ctx_vectors.log", lib, wd / "canon.json", wd / "ctx_v.ndjson"]),
-                ("thy-random", [wd / "thy_r.ndjson", seed(), nh, ln]),
-                ("ctx-random", [lib, wd / "canon.json", wd / "ctx_r.ndjson", seed(), nhc, lnc])]
-        futs = [pool.submit(run_driver, "x01", [m] + a, timeout=7200) for m, a in jobs]
-        # meanwhile: the mechanism as found in the kernel and the mutants, at the level of the specification
-        t1_jobs = []
-        asfound = [("as_found:theorem item on an existing name replaces it", "X01_Theory_asfound.cfg", {}, ["ReaddRefused"], ["ReaddRefused"]),
-                   ("as_found:add_theorem keeps the cached schematic form", "X01_Theory_asfound.cfg", {}, ["CacheCoherent"], ["CacheCoherent"])]
-        mech = [("copy_shares_the_cache", "X01_Theory_cache.cfg", {"CopyMode": '"sharecache"'}, None, ["CopyIsolation"]),
-                ("attributes_appended_in_place", "X01_Theory_cache.cfg", {"CopyMode": '"deep1"', "AttrMode": '"inplace"', "Fams": '{"attr"}', "MaxOps": "3"}, None, ["CopyIsolation"])]
-        if not quick:
-            mech += [("copy_shares_every_dictionary", "X01_Theory_cache.cfg", {"CopyMode": '"shared"'}, None, ["CopyIsolation"]),
-                     ("type_of_other_arity_shadows", "X01_Theory_cache.cfg", {"TypeMode": '"shadow"', "Fams": '{"sig"}', "MaxOps": "3"}, None, ["ReaddRefused"]),
-                     ("exit_installs_an_empty_context", "X01_Context_inv.cfg", {"ExitMode": '"empty"', "MaxOps": "3"}, None, ["CtxtRestored"]),
-                     ("set_context_overwrites_in_place", "X01_Context_inv.cfg", {"SetCtxMode": '"inplace"', "MaxOps": "3"}, None, ["PrevContextUntouched", "CtxtRestored"]),
-                     ("load_theory_hands_out_the_cached_object", "X01_Context_inv.cfg", {"LoadMode": '"shared"', "MaxOps": "3"}, None, ["CachedTheoryUntouched"]),
-                     ("load_theory_cache_leaks_its_scratch_theory", "X01_Context_inv.cfg", {"CacheLoadMode": '"leak"', "MaxOps": "3"}, None, ["ThyRestored"])]
-
-        def variant(v):
-            name, base, changes, invs, expect = v
-            cfgp = variant_cfg(wd, base, "var_%s.cfg" % "".join(c if c.isalnum() else "_" for c in name)[:60], changes, invs)
-            r = tlc(base.split("_")[0] + "_" + base.split("_")[1], str(cfgp), wd=wd / "mc_var", workers=1, timeout=1200)
-            hit = [x for x in r.violated if x in expect]
-            require(hit, "X01: the mechanism variant %s must violate one of %s (TLC: %s %s)" % (name, expect, r.violated, r.error))
-            return {"mutant": name, "caught_by": hit}
-        vres = list(pool.map(variant, asfound + mech))
-        rep.notes["as_found_model"] = vres[:2]
-        rep.notes.setdefault("spec_mutants", []).extend(vres[2:])
-        spec_mutant(rep, "copy_does_not_copy_the_cache_cell", "X01_Theory", "X01_Theory_cache.cfg",
-                    [("X01_Theory.tla", 'sv |-> IF CopyMode = "sharecache" THEN R.sv ELSE n + 5', "sv |-> R.sv")], ["CopyIsolation"], wd=wd, workers=1)
-        spec_mutant(rep, "exit_restores_the_outermost_saved_context", "X01_Context", "X01_Context_small.cfg",
-                    [("X01_Context.tla", 'CASE ExitMode = "entry" -> f.prev', 'CASE ExitMode = "entry" -> frames[1].prev')], ["CtxtRestored", "FramesAreStack"], wd=wd, workers=1)
-        if not quick:
-            spec_mutant(rep, "extension_stops_one_item_late", "X01_Theory", "X01_Theory_cache.cfg",
-                        [("X01_Theory.tla", 'IN IF r.exc # "" THEN r ELSE RunExt(r.H, R, items, i + 1, checked)',
-                          'IN IF r.exc # "" /\\ i = Len(items) THEN r ELSE LET q == RunExt(r.H, R, items, i + 1, checked) IN IF r.exc # "" THEN [q EXCEPT !.exc = r.exc] ELSE q'),
-                         ("X01_Theory_cache.cfg", 'Fams = {"cache"}', 'Fams = {"attr"}'), ("X01_Theory_cache.cfg", "MaxOps = 4", "MaxOps = 2")],
-                        ["PrefixOnRaise"], wd=wd, workers=1)
-        res = [f.result() for f in futs]
-        for (m, _), (p, w) in zip(jobs, res):
-            timing["driver_" + m] = round(w, 1)
-            rep.notes.setdefault("drivers", {})[m] = json.loads(p.stdout.strip().splitlines()[-1])
-    finally:
-        pool.shutdown(wait=True)
-    # ---------------- T: every event judged by TLC
-    fam = {}
-    steps = {}
-    for nm in ("thy_v", "ctx_v", "thy_r", "ctx_r"):
-        fam[nm] = read_events(wd / (nm + ".ndjson"))
-        steps[nm] = json.load(open(str(wd / (nm + ".ndjson")) + ".steps.json"))
-    allp = wd / "all.ndjson"
-    allev = [e for nm in fam for e in fam[nm]]
-    write_events(allp, allev)
-    v = validate_trace("X01_Trace", allp, wd=wd / "tv", nchunks=1 if quick else 4)
-    rep.states += v.get("states", 0)
-    timing["trace_validation"] = round(v["wall"], 1)
-    totals = {}
-    for nm, evs in fam.items():
-        by_tid = {e["tid"]: e for e in evs}
-        pv, tot = first_per_key(part(v, set(by_tid)), by_tid)
-        totals.update({"%s:%s" % (nm, k): n for k, n in tot.items()})
-        for f in pv["fails"]:            # the full history goes into the replay file
-            e = by_tid[f["tid"]]
-            e["steps"] = steps[nm][e["hid"]][:e["step"] + 1]
-        rep.add_trace_result(nm, evs, pv, sample_n=1)
-    if totals:
-        rep.notes["failing_events_by_clause_and_key"] = totals
-    rep.samples = [{"trace": s["trace"], "event": {k: x for k, x in s["event"].items() if k in ("kind", "fam", "op", "out", "exc", "key")}}
-                   if isinstance(s.get("event"), dict) else s for s in rep.samples]
-    # ---------------- what was exercised (counts only)
-    thy = [e for e in fam["thy_v"] + fam["thy_r"] if not e.get("lost")]
-    ctx = fam["ctx_v"] + fam["ctx_r"]
-    cnt = {}
-    for e in thy:
-        k = e["op"]["k"] + (":raised" if e["out"] != "ok" else "")
-        cnt[k] = cnt.get(k, 0) + 1
-    for e in ctx:
-        k = "ctx." + e["op"]["k"] + (":" + e["op"]["how"] if e["op"]["k"] == "exit" else "") + (":raised" if e["out"] != "ok" else "")
-        cnt[k] = cnt.get(k, 0) + 1
-    rep.notes["events_by_operation"] = dict(sorted(cnt.items()))
-    prefix_raises = sum(1 for e in thy if e["op"]["k"] == "ext" and e["out"] != "ok" and e["A"] != e["B"])
-    cached_q = sum(1 for e in thy if e["key"] == "thy:query:cached")
-    multi = sum(1 for e in thy if e["others"])
-    nested = sum(1 for e in ctx if e["op"]["k"] == "exit" and e["depth"] >= 1)
-    dirty = sum(1 for e in ctx if e["op"]["k"] == "exit" and e["dirty"])
-    rep.notes["coverage_detail"] = {"extension_raised_after_installing_a_prefix": prefix_raises, "query_of_a_cached_name": cached_q,
-                                    "steps_with_other_objects_alive": multi, "exit_of_a_nested_block": nested, "exit_after_body_installed_a_theory": dirty,
-                                    "lost_behaviours": sum(1 for e in fam["thy_v"] + fam["thy_r"] if e.get("lost"))}
-    # ---------------- binding self-test: one recorded field changed, T must reject (one TLC run)
+def make_corrupted(thy, ctx):
+    """binding self-test: copies of real events with ONE recorded field changed, each paired with the clause that must reject it"""
     bad = []
 
     def corrupt(pool_, pred, change, clause):
@@ -251,23 +103,189 @@ def run(rep, tier):
 
     def chg_canon(c):
         c["canon"] = "0" * 12
-    ok_ext = lambda e: e["kind"] == "thy" and not e.get("lost") and e["op"]["k"] == "ext" and e["out"] == "ok"
+    ok_ext = lambda e: e["op"]["k"] == "ext" and e["out"] == "ok"
     corrupt(thy, lambda e: e["others"], chg_other, "CopyIsolation")
-    corrupt(thy, lambda e: e["op"]["k"] in ("ext", "query") and e["A"]["sv"] and e["A"]["th"] and len(e["A"]["th"][0][1][0]) == 0, drop_sv, "CacheCoherent")
+    corrupt(thy, lambda e: e["op"]["k"] in ("ext", "query") and e["A"]["sv"] and e["A"]["th"] and len(e["A"]["th"][0][1][0]) == 0
+            and len(e["A"]["th"]) == len(e["A"]["sv"]) and len(e["B"]["th"]) == len(e["B"]["sv"]), drop_sv, "CacheCoherent")
     corrupt(thy, lambda e: ok_ext(e) and e["key"] == "thy:ext:fresh" and e["op"]["items"][-1][0] == "thm" and e["A"]["th"]
             and e["A"]["th"][-1][0] == e["op"]["items"][-1][1] and len(e["A"]["th"]) == len(e["A"]["sv"]), drop_thm, "InstalledInOrder")
     corrupt(ctx, lambda e: e["op"]["k"] == "exit", chg_cc, "CtxtRestored")
     corrupt(ctx, lambda e: e["op"]["k"] == "exit" and not e["dirty"], chg_thy, "ThyRestored")
     corrupt(ctx, lambda e: e["op"]["k"] == "setctx" and e["out"] == "ok" and e["cheldA"], chg_held, "PrevContextUntouched")
     corrupt(ctx, lambda e: e["op"]["k"] == "load" and e["out"] == "ok" and e["hascanon"], chg_canon, "CachedTheoryUntouched")
-    stp = wd / "selftest.ndjson"
-    write_events(stp, [c for c, _ in bad])
-    sv = validate_trace("X01_Trace", stp, wd=wd / "selftest_tv", nchunks=1)
-    got = {f["tid"]: set(f["fail"]) for f in sv["fails"]}
+    return bad
+
+
+def sweep(parent):
+    """scratch directories of runs whose process is gone (kept after a run with violations) are removed"""
+    for d in parent.glob("r*_*"):
+        pid = d.name.split("_")[-1]
+        if d.is_dir() and pid.isdigit() and not os.path.exists("/proc/%s" % pid):
+            shutil.rmtree(d, ignore_errors=True)
+
+
+def run(rep, tier):
+    quick = tier == "quick"
+    wd = work_dir("X01", "run_%d" % os.getpid(), clean=True)
+    sweep(wd.parent)
+    lib = wd / "lib"
+    rep.rule = ("TLC: all histories of <= %d operations (copy / unchecked_extend / checked_extend / add_theorem / get_theorem(svar=True)) on <= 2 Theory "
+                "objects for four small alphabets (cache, signature, overloading, attributes+proofs), all histories of <= %d operations on the globals "
+                "(fresh_context enter / exit normal / exit by exception, set_context, load_theory, load_theory_cache, extension of the global theory, "
+                "mutation of the context); every behaviour is replayed into the real code (its last step observed; earlier steps are the last steps of "
+                "shorter behaviours). Real code: seeded random histories of %d operations over a wider alphabet, every step observed. Non-trivial = "
+                "every step on a Theory object and every exit / set_context / load_theory step; distinct by the full observed state."
+                % (3 if quick else 4, 3 if quick else 4, 20 if quick else 30))
+    rep.assumptions = ["observation through the public getters only (has_*, get_type_sig, get_term_sig, get_theorem, get_attributes, is_overload_const, "
+                       "get_data(..) keys, theory.has_macro); get_theorem(name, svar=True) is asked on a copy.copy of the object",
+                       "library: a scratch directory with two generated theories and a copy of logic_base (path helpers of logic/basic.py redirected)",
+                       "re-adding a TYPE with the SAME arity is accepted (the loader does it for every datatype); same-arity re-adds are not judged",
+                       "the theory on leaving a fresh_context block is judged only when the body did not itself install a theory "
+                       "(load_theory / set_context with a name); otherwise a divergence is recorded"]
+    timing = rep.notes.setdefault("timing_s", {})
+    pool = ThreadPoolExecutor(max_workers=2)
+    try:
+        # ---------------- S: model checking (emits the behaviours)
+        f_thy = pool.submit(model_check, "X01_Theory", "X01_Theory_small.cfg" if quick else "X01_Theory_deep.cfg", wd=wd / "mc_thy", workers=2, timeout=3000)
+        f_ctx = pool.submit(model_check, "X01_Context", "X01_Context_small.cfg" if quick else "X01_Context_deep.cfg", wd=wd / "mc_ctx", workers=2, timeout=3000)
+        f_canon = pool.submit(run_driver, "x01", ["ctx-canon", lib, wd / "canon.json"], timeout=600)
+        r_thy, r_ctx = f_thy.result(), f_ctx.result()
+        f_canon.result()
+        rep.add_mc("X01_Theory(fixed mechanism; alphabets cache, sig, over, attr)", r_thy, "MaxOps=%d MaxObjs=2, every behaviour emitted" % (3 if quick else 4))
+        rep.add_mc("X01_Context(as coded = reference)", r_ctx, "MaxOps=%d" % (3 if quick else 4))
+        for nm, r in (("X01_Theory", r_thy), ("X01_Context", r_ctx)):
+            if r.violated:
+                rep.design_violation(nm, r)
+                return
+        timing["tlc_S"] = round(max(r_thy.wall, r_ctx.wall), 1)
+        logs_thy, logs_ctx = [r_thy.out], [r_ctx.out]
+        more = []
+        if not quick:
+            more += [("X01_Theory", "X01_Theory_inv.cfg", None, "all operations, 3 objects, invariants only"),
+                     ("X01_Context", "X01_Context_inv.cfg", None, "MaxOps=5, invariants only"),
+                     ("X01_Theory", "X01_Theory_sim.cfg", "num=400", "simulated behaviours of 8 operations, all operations, 3 objects"),
+                     ("X01_Context", "X01_Context_sim.cfg", "num=400", "simulated behaviours of 8 operations, depth 3, three theories")]
+
+        def one(job):
+            mod, cfg, sim, what = job
+            if sim:
+                r = tlc(mod, cfg, wd=wd / ("mc_" + cfg[:-4]), simulate=sim, depth=12, seed_=seed() + 1, timeout=3000)
+                require(r.rc == 0 or r.violated, "%s simulation failed: %s" % (mod, r.error))
+                return r
+            return model_check(mod, cfg, wd=wd / ("mc_" + cfg[:-4]), workers=2, timeout=6000)
+        for job, r in zip(more, pool.map(one, more)):
+            rep.add_mc("%s(%s)" % (job[0], job[3]), r, job[1])
+            if r.violated:
+                rep.design_violation(job[0], r)
+                return
+            if job[2]:
+                (logs_thy if job[0] == "X01_Theory" else logs_ctx).append(r.out)
+        rep.exhaustive = True
+        (wd / "thy_vectors.log").write_text("\n".join(logs_thy))
+        (wd / "ctx_vectors.log").write_text("\n".join(logs_ctx))
+        # ---------------- drivers: spec -> code (vectors) and code -> spec (seeded random histories)
+        nh, ln = (40, 20) if quick else (600, 30)
+        nhc, lnc = (30, 20) if quick else (400, 30)
+        jobs = [("thy-vectors", [wd / "thy_vectors.log", wd / "thy_v.ndjson"]),
+                ("ctx-vectors", [wd / "ctx_vectors.log", lib, wd / "canon.json", wd / "ctx_v.ndjson"]),
+                ("thy-random", [wd / "thy_r.ndjson", seed(), nh, ln]),
+                ("ctx-random", [lib, wd / "canon.json", wd / "ctx_r.ndjson", seed(), nhc, lnc])]
+        futs = [pool.submit(run_driver, "x01", [m] + a, timeout=7200) for m, a in jobs]
+        # meanwhile: the mechanism as found in the kernel and the mutants, at the level of the specification
+        t1_jobs = []
+        # the kernel as found (a theorem / type item on an existing name replaces it, add_theorem keeps the cached schematic form):
+        # one run that goes on after the first violated invariant; both invariants must be reported
+        asfound = [("as_found:existing names are replaced, the cached schematic form is kept", "X01_Theory_asfound.cfg", {}, ["ReaddRefused", "CacheCoherent"],
+                    ["ReaddRefused", "CacheCoherent"])]
+        mech = []
+        if not quick:
+            mech += [("copy_shares_the_cache", "X01_Theory_cache.cfg", {"CopyMode": '"sharecache"'}, None, ["CopyIsolation"]),
+                     ("attributes_appended_in_place", "X01_Theory_cache.cfg", {"CopyMode": '"deep1"', "AttrMode": '"inplace"', "Fams": '{"attr"}', "MaxOps": "3"}, None, ["CopyIsolation"]),
+                     ("copy_shares_every_dictionary", "X01_Theory_cache.cfg", {"CopyMode": '"shared"'}, None, ["CopyIsolation"]),
+                     ("type_of_other_arity_shadows", "X01_Theory_cache.cfg", {"TypeMode": '"shadow"', "Fams": '{"sig"}', "MaxOps": "3"}, None, ["ReaddRefused"]),
+                     ("exit_installs_an_empty_context", "X01_Context_inv.cfg", {"ExitMode": '"empty"', "MaxOps": "3"}, None, ["CtxtRestored"]),
+                     ("set_context_overwrites_in_place", "X01_Context_inv.cfg", {"SetCtxMode": '"inplace"', "MaxOps": "3"}, None, ["PrevContextUntouched", "CtxtRestored"]),
+                     ("load_theory_hands_out_the_cached_object", "X01_Context_inv.cfg", {"LoadMode": '"shared"', "MaxOps": "3"}, None, ["CachedTheoryUntouched"]),
+                     ("load_theory_cache_leaks_its_scratch_theory", "X01_Context_inv.cfg", {"CacheLoadMode": '"leak"', "MaxOps": "3"}, None, ["ThyRestored"])]
+
+        def variant(v):
+            name, base, changes, invs, expect = v
+            cfgp = variant_cfg(wd, base, "var_%s.cfg" % "".join(c if c.isalnum() else "_" for c in name)[:60], changes, invs)
+            allof = name.startswith("as_found")
+            r = tlc(base.split("_")[0] + "_" + base.split("_")[1], str(cfgp), wd=wd / "mc_var", workers=1, timeout=1200, extra=["-continue"] if allof else ())
+            hit = sorted({x for x in r.violated if x in expect})
+            require(hit and (not allof or hit == sorted(expect)),
+                    "X01: the mechanism variant %s must violate %s of %s (TLC: %s %s)" % (name, "all" if allof else "one", expect, sorted(set(r.violated)), r.error))
+            return {"mutant": name, "caught_by": hit}
+        vres = list(pool.map(variant, asfound + mech))
+        rep.notes["as_found_model"] = vres[:1]
+        rep.notes.setdefault("spec_mutants", []).extend(vres[1:])
+        spec_mutant(rep, "copy_does_not_copy_the_cache_cell", "X01_Theory", "X01_Theory_cache.cfg",
+                    [("X01_Theory.tla", 'sv |-> IF CopyMode = "sharecache" THEN R.sv ELSE n + 5', "sv |-> R.sv")], ["CopyIsolation"], wd=wd, workers=1)
+        spec_mutant(rep, "exit_restores_the_outermost_saved_context", "X01_Context", "X01_Context_small.cfg",
+                    [("X01_Context.tla", 'CASE ExitMode = "entry" -> f.prev', 'CASE ExitMode = "entry" -> frames[1].prev')], ["CtxtRestored", "FramesAreStack"], wd=wd, workers=1)
+        if not quick:
+            spec_mutant(rep, "extension_stops_one_item_late", "X01_Theory", "X01_Theory_cache.cfg",
+                        [("X01_Theory.tla", 'IN IF r.exc # "" THEN r ELSE RunExt(r.H, R, items, i + 1, checked)',
+                          'IN IF r.exc # "" /\\ i = Len(items) THEN r ELSE LET q == RunExt(r.H, R, items, i + 1, checked) IN IF r.exc # "" THEN [q EXCEPT !.exc = r.exc] ELSE q'),
+                         ("X01_Theory_cache.cfg", 'Fams = {"cache"}', 'Fams = {"attr"}'), ("X01_Theory_cache.cfg", "MaxOps = 4", "MaxOps = 2")],
+                        ["PrefixOnRaise"], wd=wd, workers=1)
+        res = [f.result() for f in futs]
+        for (m, _), (p, w) in zip(jobs, res):
+            timing["driver_" + m] = round(w, 1)
+            rep.notes.setdefault("drivers", {})[m] = json.loads(p.stdout.strip().splitlines()[-1])
+    finally:
+        pool.shutdown(wait=True)
+    # ---------------- T: every event judged by TLC (the corrupted events of the binding self-test ride along in the same run)
+    fam = {}
+    steps = {}
+    for nm in ("thy_v", "ctx_v", "thy_r", "ctx_r"):
+        fam[nm] = read_events(wd / (nm + ".ndjson"))
+        steps[nm] = json.load(open(str(wd / (nm + ".ndjson")) + ".steps.json"))
+    thy = [e for e in fam["thy_v"] + fam["thy_r"] if not e.get("lost")]
+    ctx = fam["ctx_v"] + fam["ctx_r"]
+    bad = make_corrupted(thy, ctx)
+    allp = wd / "all.ndjson"
+    allev = [e for nm in fam for e in fam[nm]]
+    write_events(allp, allev + [c for c, _ in bad])
+    v = validate_trace("X01_Trace", allp, wd=wd / "tv", nchunks=1 if quick else 4)
+    rep.states += v.get("states", 0)
+    timing["trace_validation"] = round(v["wall"], 1)
+    got = {f["tid"]: set(f["fail"]) for f in v["fails"]}
     for c, clause in bad:
         require(clause in got.get(c["tid"], set()), "self-test: X01_Trace accepted an event corrupted for clause %s (got %s)" % (
             clause, sorted(got.get(c["tid"], []))))
     rep.notes["selftests"] = [{"spec": "X01_Trace", "corrupted_field_for": clause, "rejected": True} for _, clause in bad]
+    totals = {}
+    for nm, evs in fam.items():
+        by_tid = {e["tid"]: e for e in evs}
+        pv, tot = first_per_key(part(v, set(by_tid)), by_tid)
+        totals.update({"%s:%s" % (nm, k): n for k, n in tot.items()})
+        for f in pv["fails"]:            # the full history goes into the replay file
+            e = by_tid[f["tid"]]
+            e["steps"] = steps[nm][e["hid"]][:e["step"] + 1]
+        rep.add_trace_result(nm, evs, pv, sample_n=1)
+    if totals:
+        rep.notes["failing_events_by_clause_and_key"] = totals
+    rep.samples = [{"trace": s["trace"], "event": {k: x for k, x in s["event"].items() if k in ("kind", "fam", "op", "out", "exc", "key")}}
+                   if isinstance(s.get("event"), dict) else s for s in rep.samples]
+    # ---------------- what was exercised (counts only)
+    cnt = {}
+    for e in thy:
+        k = e["op"]["k"] + (":raised" if e["out"] != "ok" else "")
+        cnt[k] = cnt.get(k, 0) + 1
+    for e in ctx:
+        k = "ctx." + e["op"]["k"] + (":" + e["op"]["how"] if e["op"]["k"] == "exit" else "") + (":raised" if e["out"] != "ok" else "")
+        cnt[k] = cnt.get(k, 0) + 1
+    rep.notes["events_by_operation"] = dict(sorted(cnt.items()))
+    prefix_raises = sum(1 for e in thy if e["op"]["k"] == "ext" and e["out"] != "ok" and e["A"] != e["B"])
+    cached_q = sum(1 for e in thy if e["key"] == "thy:query:cached")
+    multi = sum(1 for e in thy if e["others"])
+    nested = sum(1 for e in ctx if e["op"]["k"] == "exit" and e["depth"] >= 1)
+    dirty = sum(1 for e in ctx if e["op"]["k"] == "exit" and e["dirty"])
+    rep.notes["coverage_detail"] = {"extension_raised_after_installing_a_prefix": prefix_raises, "query_of_a_cached_name": cached_q,
+                                    "steps_with_other_objects_alive": multi, "exit_of_a_nested_block": nested, "exit_after_body_installed_a_theory": dirty,
+                                    "lost_behaviours": sum(1 for e in fam["thy_v"] + fam["thy_r"] if e.get("lost"))}
     # ---------------- vacuity guards
     need = {"copy": 50, "ext": 300, "ext:raised": 100, "put": 30, "query": 50, "ctx.enter": 50, "ctx.exit:normal": 30, "ctx.exit:exc": 30,
             "ctx.setctx": 50, "ctx.load": 30, "ctx.cacheload": 10, "ctx.extglobal": 10, "ctx.mutate": 10}
